@@ -109,6 +109,9 @@ var c13Rules = []c13Rule{
 	c13R(`^trailers include 'grpc-status-details-bin' value that disagrees with 'grpc-status' value: -?\d+ != -?\d+$`, "st:details-code"),
 	c13R(`^trailers include 'grpc-status-details-bin' value with zero/okay 'grpc-status' and non-empty details$`, "st:details-with-ok"),
 	c13R(`^trailers include 'grpc-status-details-bin' value that disagrees with 'grpc-message' value: ".*" != ".*"$`, "st:details-msg"),
+	// binary metadata
+	c13R(`^(headers|trailers|metadata) include incorrectly-encoded '.*' value: .*$`, "bm:invalid"),
+	c13R(`^(headers|trailers|metadata) include '.*' value with padding but servers should emit unpadded: .*$`, "bm:padded"),
 	// Connect error JSON
 	c13R(`^connect error JSON: value for key "code" is a [^"]+ instead of a string$`, "ce:code-type"),
 	c13R(`^connect error JSON: value for key "code" is not a recognized error code name: ".*"$`, "ce:code-unknown"),
